@@ -368,6 +368,7 @@ type c10Pair struct {
 	Class   bool     `json:"control_comment_in_excluded_text"`
 	Column  bool     `json:"directive_column_moved"`
 	Scalar  bool     `json:"excluded_length_changed_in_block_scalar"`
+	Long    bool     `json:"excluded_line_crosses_yaml_comment_lookahead"`
 	Diffs   []string `json:"diffs,omitempty"`
 	Relaxed bool     `json:"relaxed"`
 }
@@ -458,6 +459,7 @@ func c10Oracle(r *rand.Rand, rep *runReport, n int, cw *caseWriter, nextID *int)
 		p.Class = ca || cb
 		p.Column = (p.Kind == "replace" && c10ColumnMoved(p.A, p.B)) || (p.Kind == "insert" && c10InsertNextToComment(p.A, p.After))
 		p.Scalar = p.Kind == "replace" && c10LengthInBlockScalar(p.A, p.B)
+		p.Long = c10LongBlankedLine(p)
 		name := "rules.yml"
 		if p.Relaxed {
 			name = "relaxed.yml"
@@ -530,7 +532,7 @@ func c10Oracle(r *rand.Rand, rep *runReport, n int, cw *caseWriter, nextID *int)
 		rep.count("oracle:"+p.A+"\x00"+p.B, hasProblem || strings.Contains(p.A, "alert:") || strings.Contains(p.A, "record:"))
 		if len(p.Diffs) > 0 {
 			what := fmt.Sprintf("C10 %s: files differing only in excluded text give different results: %s", p.Kind, p.Diffs[0])
-			if p.Kind == "replace" && (p.Class || p.Column || p.Scalar) {
+			if p.Kind == "replace" && (p.Class || p.Column || p.Scalar || p.Long) {
 				// known-class failure: let Coq decide whether the reader MODEL explains it (Run/C10.v TPair)
 				cw.add(fmt.Sprintf("TPair %s %s %s %s", coqN(*nextID), scStr(p.A), scStr(p.B), scTimeTable(p.A+"\n"+p.B)))
 				rep.Cases[fmt.Sprint(*nextID)] = p
@@ -543,6 +545,8 @@ func c10Oracle(r *rand.Rand, rep *runReport, n int, cw *caseWriter, nextID *int)
 				rep.failKnown(fmt.Sprintf("oracle-%d", i), what, p, c10KnownColumn)
 			} else if p.Scalar {
 				rep.failKnown(fmt.Sprintf("oracle-%d", i), what, p, c10KnownScalar)
+			} else if p.Long {
+				rep.failKnown(fmt.Sprintf("oracle-%d", i), what, p, c10KnownLong)
 			} else {
 				rep.fail(fmt.Sprintf("oracle-%d", i), what, p)
 			}
@@ -611,6 +615,35 @@ func c10LengthInBlockScalar(a, b string) bool {
 			if minInd == 0 {
 				break
 			}
+		}
+	}
+	return false
+}
+
+// c10YamlCommentLookahead: yaml.v3's comment scanner (scannerc.go, yaml_parser_scan_comments) looks at most 512 bytes of
+// blanks ahead for the '#' of a following comment; measured on the pint binary: a blanked line of >= 511 bytes in front of
+// a `# pint disable ...` line detaches that comment from the rule above.
+const c10YamlCommentLookahead = 511
+
+// c10LongBlankedLine: known-finding class C10-long-blanked-line — an entirely excluded line is blanked to as many spaces as
+// it had bytes; exactly one of the two versions of such a line reaches yaml.v3's comment lookahead limit (replace), or the
+// inserted block contains such a line (insert).
+func c10LongBlankedLine(p *c10Pair) bool {
+	long := func(l string) bool { return len(strings.TrimSuffix(l, "\n")) >= c10YamlCommentLookahead }
+	ca, cb := c10Chunks([]byte(p.A)), c10Chunks([]byte(p.B))
+	if p.Kind == "insert" {
+		for i := p.After; i < p.After+p.K && i < len(cb); i++ {
+			if long(cb[i]) {
+				return true
+			}
+		}
+		return false
+	}
+	exA, _ := c10Excluded([]byte(p.A))
+	for _, n := range exA {
+		i := n - 1
+		if i < len(ca) && i < len(cb) && long(ca[i]) != long(cb[i]) {
+			return true
 		}
 	}
 	return false
